@@ -258,6 +258,24 @@ def fixed_twins():
         alts = [M.enc_inputs({"uid": v, "plan": p}) for v in vals for p in ("pro", "basic")]
         yield {"prog": prog, "classes": classes, "inputs": inputs, "alts": alts, "extra": {"unused_1": M.enc("x")}, "perm": 0,
                "newname": "renamed"}
+    # negated ordering tests: a missing number (NaN) takes the same route as a high score under `not score < 0.5` (every ordering
+    # test on NaN is false), so it must get the same group
+    I, F = M.ident, M.lit_float
+    G = lambda p: M.ret([(M.lit_str("%s%d" % (p, j)), "1") for j in range(8)])  # noqa: E731
+    for pred in (M.not_(M.cmp_(I("score"), "<", F("0.5"))), M.not_(M.cmp_(I("score"), ">=", F("0.5")), 1), M.not_(M.cmp_(F("0.5"), "<=", I("score"))),
+                 M.and_(M.not_(M.cmp_(I("score"), ">", F("0.5"))), M.not_(M.cmp_(I("score"), "<=", F("0.5"))))):
+        prog = M.program("exp", M.if_([(pred, G("t"))], G("e")), salt="s", splitters=["uid"])
+        nan = float("nan")
+        rows = [(0.9, nan), (0.1, nan), (nan, 0.9), (nan, 0.1), (nan, float("inf")), (0.5, nan), (nan, float("-inf"))]
+        inputs = [M.enc_inputs({"uid": "u%d" % j, "score": a}) for j in range(6) for a, _ in rows]
+        alts = [M.enc_inputs({"uid": "u%d" % j, "score": b}) for j in range(6) for _, b in rows]
+        yield {"prog": prog, "classes": {"uid": "any", "score": "num"}, "inputs": inputs, "alts": alts, "extra": {}, "perm": 0, "newname": "renamed"}
+    # splitter names that differ only in letter case, in every declaration order
+    for k, names in enumerate((["id", "Id", "region"], ["uid", "UID"], ["a", "A", "b", "B"], ["Zeta", "zeta", "ZETA"])):
+        prog = M.program("exp", M.ret([(M.lit_str("g%d" % j), "1") for j in range(16)]), salt=None if k % 2 else "s", splitters=names)
+        inputs = [M.enc_inputs({n: "%s-%d" % (n, j) for n in names}) for j in range(10)]
+        for perm in range(0, 24, 5):
+            yield {"prog": prog, "classes": {n: "any" for n in names}, "inputs": inputs, "alts": inputs, "extra": {}, "perm": perm, "newname": "renamed"}
 
 
 def run(ctx, rec):
